@@ -276,7 +276,7 @@ def main(argv=None):
     # ---- 2/3. Lean build + audit --------------------------------------------------------
     checker_cmd = "cd /verif/lean && lake build " + " ".join(modules + ([driver] if driver else []))
     if not args.skip_lean:
-        with Lock("lake"):
+        with Lock("lake-" + pid.lower()):
             targets = list(modules) + ([driver] if driver else [])
             rc, out, dt = run(["lake", "build"] + targets, cwd=LEAN_DIR, timeout=3000)
             log.append({"step": "lake build", "targets": targets, "rc": rc, "s": round(dt, 1)})
